@@ -5,7 +5,9 @@ source (C06, C17, ...)."""
 import os, subprocess, shutil, tempfile
 
 # file:functions translated into the one program `src_pure`
-SRC_SPEC = "crc.go:*;encoding.go:*"
+SRC_SPEC = ("crc.go:*;encoding.go:*;modbus.go:mapExceptionCodeToError,mapErrorToExceptionCode;"
+            "rtu_transport.go:expectedResponseLenth,serialCharTime,rtuTransport.assembleRTUFrame;"
+            "tcp_transport.go:tcpTransport.assembleMBAPFrame;client.go:registerCount")
 
 
 def regen_src(verif_dir, repo_dir, goenv):
